@@ -214,7 +214,8 @@ def finish(prop, tier, seed, results, t0, *, bounds, stubs, assumptions, outside
         inconclusive=agg['inconclusive'], queries=agg['queries'],
         solver_time_s=round(agg['solver_time'], 3),
         functions_encoded=sorted(funcs), bounds=bounds, outside_claim=outside, stubs=stubs,
-        tasks=len(results), known_findings_reported=len(seen), partially_explored_or_skipped_generated_programs=notes[:40],
+        tasks=len(results), known_findings_reported=len(seen),
+        known_findings=[dict(id=k.get('id'), instance=k.get('instance')) for k in known][:10], partially_explored_or_skipped_generated_programs=notes[:40],
         exhaustive=False,
         explanation='bounded symbolic execution of the real functions (symx proxies over z3 QF_BV); '
                     'states = feasible paths, transitions = symbolic branch decisions',
